@@ -14,11 +14,9 @@ pub const TYPES: [&str; 5] = ["AdjacencyList", "AdjacencyMap", "AdjacencyMatrix"
 
 /// One abstract digraph and a set of distinct in-range sources.
 pub fn gen_case(r: &mut Rng, max: usize) -> (Model, Vec<usize>, &'static str) {
-    let f = r.below(gen::FAMILIES.len());
-    let n = gen::small_order(r, max);
-    let m = gen::family(r, f, n);
-    let src = gen::sources(r, n);
-    (m, src, gen::FAMILIES[f])
+    let (m, fam) = gen::algo_digraph(r, max, 257);
+    let src = gen::sources(r, m.n());
+    (m, src, fam)
 }
 
 pub fn check_level_seq(o: &mut CaseOut, who: &str, seq: &[usize], lv: &BTreeMap<usize, usize>) {
